@@ -2,7 +2,7 @@
 (* Constants of the C12 runs: an upload configuration, the structural        *)
 (* classes of every request field, and the request sets built from them      *)
 (* (all requests that deviate from a valid primary request in at most k      *)
-(* of the six fields method, week, config, X, programs, size).  checks/c12.py concretizes every abstract request into bytes and *)
+(* of the nine fields method, week, config, X, programs, size, path, layout, LastWeek).  checks/c12.py concretizes every abstract request into bytes and *)
 (* reads the configuration from the JSON file written below.                 *)
 EXTENDS Server, Json
 
@@ -37,6 +37,7 @@ IsoDates == {<<2023, 1, 1>>, <<2024, 2, 29>>, <<2023, 2, 29>>, <<2023, 2, 28>>, 
              <<2023, 13, 1>>, <<2023, 0, 10>>, <<2023, 1, 0>>, <<2023, 1, 32>>, <<2023, 12, 32>>,
              <<1900, 2, 29>>, <<2000, 2, 29>>, <<2100, 2, 29>>, <<9999, 12, 31>>, <<1, 1, 1>>}
 IsoWeeks == {Iso(t[1], t[2], t[3]) : t \in IsoDates}
+            \cup {[Iso(2023, 1, 1) EXCEPT !.shape = "isoesc"], [Iso(2023, 2, 30) EXCEPT !.shape = "isoesc"]}
 (* shapes that are not YYYY-MM-DD; the path is that of the text the harness  *)
 (* sends for the shape (2023-01-01 written differently, or a path)           *)
 OtherShape(s, p) == [shape |-> s, y |-> 2023, m |-> 1, d |-> 1, path |-> p]
@@ -59,7 +60,9 @@ OtherWeeks == {OtherShape("absent", <<>>), OtherShape("empty", <<>>),
                OtherShape("compact", <<"n">>),        \* 20230101
                OtherShape("dmy", <<"n">>),            \* 01-01-2023
                OtherShape("fullwidth", <<"n">>),      \* fullwidth digits
-               OtherShape("word", <<"n">>)}           \* "week"
+               OtherShape("word", <<"n">>),           \* "week"
+               OtherShape("long", <<"n">>),           \* 5000 characters
+               OtherShape("percent", <<"n">>)}        \* "%s%d%!v(MISSING)" (format verbs)
 Weeks == IsoWeeks \cup OtherWeeks
 PWeek == Iso(2023, 1, 1)
 
@@ -84,6 +87,10 @@ PX == XC("nonzero", "0.5", "0.5")
 Xs == {PX, XC("nonzero", "0.5", "5e-1"), XC("nonzero", "0.25", "0.25"), XC("nonzero", "1e-07", "0.0000001"),
        XC("nonzero", "-1.0", "-1"), XC("nonzero", "1e+308", "1e308"), XC("nonzero", "1.0", "1"),
        XC("nonzero", "5e-324", "5e-324"), XC("nonzero", "123456789.0", "123456789"), XC("nonzero", "100.0", "1E+2"),
+       XC("nonzero", "1.7976931348623157e+308", "1.7976931348623157e308"), XC("nonzero", "2.2250738585072014e-308", "2.2250738585072014e-308"),
+       XC("nonzero", "0.12345678901234568", "0.1234567890123456789"), XC("nonzero", "1e+21", "1e21"),
+       XC("nonzero", "1e+20", "100000000000000000000"), XC("nonzero", "1e-05", "0.00001"), XC("nonzero", "0.0001", "0.0001"),
+       XC("nonzero", "-5e-324", "-5e-324"),
        XC("zero", "0", "0"), XC("zero", "0", "-0"), XC("zero", "0", "0.0"), XC("zero", "0", "0e10"), XC("zero", "0", "absent"),
        XC("overflow", "inf", "1e999"), XC("overflow", "-inf", "-1e999"), XC("underflow", "0", "1e-999")}
 
@@ -108,6 +115,9 @@ Bads == {[OKFull EXCEPT !.program = v] : v \in {"golang.org/x/tools/goplz", "", 
                                                       St("gopls/bug ", FALSE), St("gopls", TRUE)}}
    \cup {[OK2 EXCEPT !.stacks = {St("gopls/bug", TRUE)}], [OK2 EXCEPT !.counters = {"editor:vim"}],
          [OK2 EXCEPT !.version = "v0.10.1"]}
+   \cup {Prog("", "", "", "", "", {}, {}),                          \* an empty program object {}
+         Prog(GOPLS, "", "", "", "", {}, {}),                       \* only the program name
+         Prog("", "v0.10.1", "go1.20", "linux", "amd64", {"editor:vim"}, {})}   \* everything but the program name
 SomeBads == {[OKFull EXCEPT !.goos = "plan9"], [OKFull EXCEPT !.counters = @ \cup {"editor:helix"}],
              [OKFull EXCEPT !.stacks = @ \cup {St("gopls/bugs", TRUE)}]}
 PL(pf, ps) == [pform |-> pf, programs |-> ps]
@@ -116,6 +126,9 @@ ProgLists == {PL("absent", <<>>), PL("null", <<>>), PL("list", <<>>), PProgs, PL
               PL("list", <<OKBare>>), PL("list", <<OK1, OK2>>), PL("list", <<OK1, OK1>>), PL("list", <<OKFull, OK2, OKBare>>)}
         \cup {PL("list", <<b>>) : b \in Bads}
         \cup {PL("list", <<OK1, b>>) : b \in SomeBads} \cup {PL("list", <<b, OK2>>) : b \in SomeBads}
+        \cup {PL("list", [i \in 1..40 |-> OK1]),                                   \* many programs, all approved
+              PL("list", [i \in 1..40 |-> IF i = 40 THEN [OKFull EXCEPT !.goos = "plan9"] ELSE OK1]),   \* ... the last one not
+              PL("list", [i \in 1..40 |-> IF i = 17 THEN [OKFull EXCEPT !.counters = @ \cup {"editor:helix"}] ELSE OK2])}
         \cup {PL("list", <<NilProg>>), PL("list", <<OK1, NilProg>>), PL("list", <<NilProg, OK1>>),
               PL("list", <<NilProg, [OKFull EXCEPT !.goos = "plan9"]>>)}
 
@@ -133,22 +146,40 @@ Lens == {PLen, LenC("small", 0, "none", FALSE)}
         \cup {LenC("lim+1", MCLimit + 1, p, d) : p \in {"lastweek", "lead"}, d \in BOOLEAN}
         \cup {LenC("3lim", 3 * MCLimit, "lastweek", d) : d \in BOOLEAN}
 
+(* ---- things the decision must NOT depend on -------------------------------- *)
+(* the request path below /upload/ (the object is named by the report, never *)
+(* by the URL): "root" /upload/, "named" /upload/<a week>/<an X>.json,       *)
+(* "dotdot" /upload/..%2F..%2Fx.json, "deep" /upload/a/b/c/d.json,           *)
+(* "query" /upload/?Week=..%2Fx&X=9                                          *)
+Paths == {"root", "named", "dotdot", "deep", "query"}
+(* how the JSON text is laid out: "compact"; "pretty" (indented, CRLF line   *)
+(* ends, blanks after colons); "reversed" (fields in reverse order)          *)
+Layouts == {"compact", "pretty", "reversed"}
+(* the LastWeek field (never validated, part of the stored content): 0 "",   *)
+(* 1 a date, 2 non-ASCII text with U+2028, 3 HTML/JSON special characters,   *)
+(* 4 a path                                                                  *)
+LastWeeks == 0..4
+
 (* ---- requests -------------------------------------------------------------- *)
-Mk(t, tag) == [kind |-> "report", gshape |-> "-", method |-> t[1], week |-> t[2], config |-> t[3], x |-> t[4],
-               pform |-> t[5].pform, programs |-> t[5].programs, lenc |-> t[6].lenc, len |-> t[6].len, pad |-> t[6].pad, declared |-> t[6].declared, tag |-> tag]
-Prim == <<"POST", PWeek, PConfig, PX, PProgs, PLen>>
-Dom == <<Methods, Weeks, Configs, Xs, ProgLists, Lens>>
+Mk(t) == [kind |-> "report", gshape |-> "-", method |-> t[1], week |-> t[2], config |-> t[3], x |-> t[4],
+          pform |-> t[5].pform, programs |-> t[5].programs, lenc |-> t[6].lenc, len |-> t[6].len, pad |-> t[6].pad, declared |-> t[6].declared,
+          path |-> t[7], layout |-> t[8], tag |-> t[9]]
+Prim == <<"POST", PWeek, PConfig, PX, PProgs, PLen, "root", "compact", 0>>
+Dom == <<Methods, Weeks, Configs, Xs, ProgLists, Lens, Paths, Layouts, LastWeeks>>
+NF == 9
 (* all requests that deviate from Prim in exactly the positions S *)
 D(i, S) == IF i \in S THEN Dom[i] \ {Prim[i]} ELSE {Prim[i]}
-Subsets(k) == {T \in SUBSET (1..6) : Cardinality(T) <= k}
-Reports(k) == UNION {{Mk(<<m, w, c, x, p, l>>, 0) : m \in D(1, S), w \in D(2, S), c \in D(3, S), x \in D(4, S), p \in D(5, S), l \in D(6, S)} :
+Subsets(k) == {T \in SUBSET (1..NF) : Cardinality(T) <= k}
+Reports(k) == UNION {{Mk(<<m, w, c, x, p, l, pa, la, lw>>) : m \in D(1, S), w \in D(2, S), c \in D(3, S), x \in D(4, S), p \in D(5, S), l \in D(6, S),
+                                                           pa \in D(7, S), la \in D(8, S), lw \in D(9, S)} :
                         S \in Subsets(k)}
 
 GShapes == {"empty", "nobody", "notjson", "binary", "form", "truncated", "truncated1", "unclosed-string", "wrongtype-week",
             "wrongtype-x", "wrongtype-config", "wrongtype-programs", "wrongtype-program", "wrongtype-counters", "wrongtype-counter",
             "counter-float", "counter-overflow", "array", "string", "number", "null", "emptyobj", "true", "deep"}
 Garbage == {[kind |-> "garbage", gshape |-> g, method |-> m, week |-> PWeek, config |-> PConfig, x |-> PX,
-             pform |-> "absent", programs |-> <<>>, lenc |-> l.lenc, len |-> l.len, pad |-> l.pad, declared |-> l.declared, tag |-> 0] :
+             pform |-> "absent", programs |-> <<>>, lenc |-> l.lenc, len |-> l.len, pad |-> l.pad, declared |-> l.declared,
+             path |-> "root", layout |-> "compact", tag |-> 0] :
                g \in GShapes, m \in {"POST", "GET", "PUT"},
                l \in {PLen, LenC("3lim", 3 * MCLimit, "garbage", TRUE), LenC("3lim", 3 * MCLimit, "garbage", FALSE)}}
 
@@ -159,9 +190,9 @@ ReqsK(k) == UNION {Reports(k), IF k = 1 THEN {g \in Garbage : g.method = "POST" 
 Decided(R) == {r \in R : Decision(r) # "either"}
 
 (* ---- initial buckets ------------------------------------------------------- *)
-PReq == Mk(Prim, 0)
-Pre1 == Mk(Prim, 1)                                            \* same name as the primary request, other content
-Pre2 == Mk(<<"POST", Iso(2024, 2, 29), PConfig, XC("nonzero", "0.25", "0.25"), PL("list", <<OK2>>), PLen>>, 0)
+PReq == Mk(Prim)
+Pre1 == [Mk(Prim) EXCEPT !.tag = 1]                            \* same name as the primary request, other (longer) content
+Pre2 == Mk(<<"POST", Iso(2024, 2, 29), PConfig, XC("nonzero", "0.25", "0.25"), PL("list", <<OK2>>), PLen, "root", "compact", 0>>)
 MCInit == [empty |-> <<>>,
            prepop |-> (Key(Pre1) :> Content(Pre1)) @@ (Key(Pre2) :> Content(Pre2))]
 (* the requests that build the initial buckets, for the harness *)
